@@ -277,7 +277,7 @@ def r173(facts, res):
             else:
                 res.ok(R, key, loc_of(b, ib), 'summary flag `%s` starts %s and is only ever %s inside the loop (%d assignments)' % (
                     fname, str(bool(c)).lower(), 'lowered' if c else 'raised', len(inl)))
-    res.floor(R, 'loop summary flags', n, 8)
+    res.floor(R, 'loop summary flags', n, 6)
 
 
 FIRST_READS = {'firsts', 'is_set'}          # YaccFirsts::firsts(ridx) / is_set(ridx, tidx)
